@@ -430,12 +430,12 @@ Variable dexts : list bytes.
 Lemma serve_cases cs cfgs path ae s :
   gzip_serve dexts cs cfgs path ae s = run_plain s \/
   exists c H H1 H2 code wr,
-    contains ae GZIP = true /\ find (req_ok dexts cs path) cfgs = Some c /\ resp_ok c H = true /\
+    accepts_gzip ae = true /\ find (req_ok dexts cs path) cfgs = Some c /\ resp_ok c H = true /\
     run_plain s = closed_plain H1 H (Some code) wr /\
     gzip_serve dexts cs cfgs path ae s = closed_gz H2 H code wr.
 Proof.
   unfold gzip_serve.
-  destruct (contains ae GZIP) eqn:Hae; simpl; [|left; reflexivity].
+  destruct (accepts_gzip ae) eqn:Hae; simpl; [|left; reflexivity].
   destruct (find (req_ok dexts cs path) cfgs) as [c|] eqn:Hf; [|left; reflexivity].
   destruct (shape_of s) as (H & H' & oc & wr & r & Hs).
   rewrite (gz_of_shape c s H H' oc wr r Hs).
@@ -549,10 +549,115 @@ Proof.
   left. unfold r_cl. rewrite hdr_gz. apply gz_hdr_cl.
 Qed.
 
-(* ---- no gzip in Accept-Encoding (as the code reads it) => identity ---- *)
-Lemma identity_when_no_gzip_substring cs cfgs path ae s :
-  contains ae GZIP = false -> gzip_serve dexts cs cfgs path ae s = run_plain s.
+(* ---- gzip not offered in Accept-Encoding => identity ---- *)
+Lemma identity_when_not_accepted cs cfgs path ae s :
+  accepts_gzip ae = false -> gzip_serve dexts cs cfgs path ae s = run_plain s.
 Proof. intros H. unfold gzip_serve. rewrite H. reflexivity. Qed.
+
+(* the code's reading of Accept-Encoding (acceptsGzip) is at least as strict as RFC 7231's
+   ([offers_gzip], the executable spec's): whenever the code sees gzip offered, so does the RFC *)
+Lemma lower_inv k c : (k <? 97) || (122 <? k) = true -> lower_byte c = k -> c = k.
+Proof.
+  unfold lower_byte. intros Hk.
+  destruct ((65 <=? c) && (c <=? 90)) eqn:E; [|auto].
+  apply andb_true_iff in E as [E1 E2]. apply N.leb_le in E1, E2.
+  intros <-. apply orb_true_iff in Hk as [Hk | Hk]; apply N.ltb_lt in Hk; lia.
+Qed.
+
+Lemma is_ows_lower c : is_ows (lower_byte c) = is_ows c.
+Proof.
+  unfold is_ows, lower_byte. destruct ((65 <=? c) && (c <=? 90)) eqn:E; [|reflexivity].
+  apply andb_true_iff in E as [E1 E2]. apply N.leb_le in E1, E2.
+  assert (H1 : c + 32 =? 32 = false) by (apply N.eqb_neq; lia).
+  assert (H2 : c + 32 =? 9 = false) by (apply N.eqb_neq; lia).
+  assert (H3 : c =? 32 = false) by (apply N.eqb_neq; lia).
+  assert (H4 : c =? 9 = false) by (apply N.eqb_neq; lia).
+  rewrite H1, H2, H3, H4. reflexivity.
+Qed.
+
+Lemma ltrim_lower v : ltrim (to_lower v) = to_lower (ltrim v).
+Proof.
+  unfold to_lower. induction v as [|c v IH]; simpl; [reflexivity|].
+  rewrite is_ows_lower. destruct (is_ows c); [exact IH | reflexivity].
+Qed.
+
+Lemma trim_lower v : trim (to_lower v) = to_lower (trim v).
+Proof.
+  unfold trim. rewrite ltrim_lower. unfold to_lower at 1. rewrite <- map_rev.
+  fold (to_lower (rev (ltrim v))). rewrite ltrim_lower. unfold to_lower. rewrite <- map_rev. reflexivity.
+Qed.
+
+Lemma forallb_zero_lower r : forallb (N.eqb 48) (to_lower r) = true -> forallb (N.eqb 48) r = true.
+Proof.
+  unfold to_lower. induction r as [|c r IH]; cbn [map forallb]; [auto|].
+  intros H. apply andb_true_iff in H as [Hc Hr]. apply N.eqb_eq in Hc. symmetry in Hc.
+  apply lower_inv in Hc; [|reflexivity]. subst c. rewrite N.eqb_refl. exact (IH Hr).
+Qed.
+
+Lemma zero_q_lower w : is_zero_q (to_lower w) = true -> zero_qvalue w = true.
+Proof.
+  unfold is_zero_q, zero_qvalue. change (bs "0") with [48]. change (bs "0.") with [48; 46].
+  intros H. apply orb_true_iff in H as [H | H]; apply orb_true_iff.
+  - left. apply beq_eq in H. destruct w as [|a [|b w]]; cbn [to_lower map] in H; try discriminate.
+    injection H as H. apply lower_inv in H; [|reflexivity]. subst a. reflexivity.
+  - right. apply andb_true_iff in H as [Hp Hz].
+    destruct w as [|a [|b w]]; cbn [to_lower map has_prefix] in Hp.
+    + discriminate.
+    + apply andb_true_iff in Hp as [_ Hp]. discriminate.
+    + apply andb_true_iff in Hp as [Ha Hb]. apply andb_true_iff in Hb as [Hb _].
+      apply N.eqb_eq in Ha, Hb.
+      apply lower_inv in Ha; [|reflexivity]. apply lower_inv in Hb; [|reflexivity]. subst a b.
+      cbn [to_lower map skipn] in Hz. fold (to_lower w) in Hz.
+      cbn [has_prefix skipn]. rewrite !N.eqb_refl. cbn [andb].
+      replace (has_prefix w []) with true by (destruct w; reflexivity). cbn [andb].
+      apply forallb_zero_lower. exact Hz.
+Qed.
+
+Lemma spec_zero_refuses p :
+  (let p' := to_lower (trim p) in has_prefix p' (bs "q=") && is_zero_q (trim (skipn 2 p'))) = true ->
+  q_refuses p = true.
+Proof.
+  unfold q_refuses. cbv zeta. destruct (trim p) as [|c1 [|c2 v]]; simpl; try discriminate.
+  - intros H. apply andb_true_iff in H as [H _]. apply andb_true_iff in H as [_ H]. discriminate.
+  - intros H. apply andb_true_iff in H as [Hp Hz].
+    apply andb_true_iff in Hp as [H1 H2]. apply andb_true_iff in H2 as [H2 _].
+    apply N.eqb_eq in H1, H2.
+    fold (to_lower v) in Hz. rewrite trim_lower in Hz. apply zero_q_lower in Hz. rewrite Hz.
+    apply lower_inv in H2; [|reflexivity]. subst c2. rewrite N.eqb_refl.
+    unfold lower_byte in H1. destruct ((65 <=? c1) && (c1 <=? 90)) eqn:E.
+    + assert (c1 = 81) by lia. subst c1. reflexivity.
+    + subst c1. reflexivity.
+Qed.
+
+Lemma accepts_offers ae : accepts_gzip ae = true -> offers_gzip ae = true.
+Proof.
+  unfold accepts_gzip, offers_gzip, offers. intros H.
+  apply existsb_exists in H as (e & Hin & He).
+  unfold coding_offers_gzip in He. cbv zeta in He. apply andb_true_iff in He as [Hname Hq].
+  set (entry := fun e : bytes => let parts := split 59 e in (to_lower (trim (hd [] parts)), qzero (tl parts))).
+  assert (Hent : In (entry e) (ae_entries ae)) by (unfold ae_entries; apply in_map; exact Hin).
+  assert (Hn : existsb (beq (fst (entry e))) [GZIP; bs "x-gzip"] = true).
+  { unfold entry. cbn [fst]. apply orb_true_iff in Hname as [Hn | Hn]; apply beq_eq in Hn; rewrite Hn; reflexivity. }
+  assert (Hz : snd (entry e) = false).
+  { unfold entry. cbn [snd]. unfold qzero.
+    match goal with |- ?x = false => destruct x eqn:E end; [|reflexivity].
+    apply existsb_exists in E as (p & Hp & Hpz). apply spec_zero_refuses in Hpz.
+    apply negb_true_iff in Hq.
+    assert (existsb q_refuses (tl (split 59 e)) = true) by (apply existsb_exists; exists p; split; assumption).
+    congruence. }
+  assert (Hf : In (entry e) (filter (fun x => existsb (beq (fst x)) [GZIP; bs "x-gzip"]) (ae_entries ae)))
+    by (apply filter_In; split; assumption).
+  destruct (filter _ (ae_entries ae)) as [|x ex] eqn:Ef; [destruct Hf|].
+  apply existsb_exists. exists (entry e). split; [exact Hf | rewrite Hz; reflexivity].
+Qed.
+
+Lemma identity_when_not_offered cs cfgs path ae s :
+  offers_gzip ae = false -> gzip_serve dexts cs cfgs path ae s = run_plain s.
+Proof.
+  intros H. apply identity_when_not_accepted.
+  destruct (accepts_gzip ae) eqn:E; [|reflexivity].
+  apply accepts_offers in E. congruence.
+Qed.
 
 (* ---- request filters ---- *)
 Lemma find_none_all {A} (f : A -> bool) l : (forall x, In x l -> f x = false) -> find f l = None.
@@ -566,7 +671,7 @@ Lemma excluded_identity cs cfgs path ae s :
   gzip_serve dexts cs cfgs path ae s = run_plain s.
 Proof.
   intros H. unfold gzip_serve. rewrite (find_none_all _ _ H).
-  destruct (negb (contains ae GZIP)); reflexivity.
+  destruct (negb (accepts_gzip ae)); reflexivity.
 Qed.
 
 (* ---- min_length ---- *)
@@ -609,7 +714,7 @@ Qed.
 (* ---- and it does compress when everything says so ---- *)
 Lemma compresses_when_eligible cs cfgs path ae s c :
   forallb is_hdr s = false ->
-  contains ae GZIP = true -> find (req_ok dexts cs path) cfgs = Some c ->
+  accepts_gzip ae = true -> find (req_ok dexts cs path) cfgs = Some c ->
   resp_ok c (r_hdr (run_plain s)) = true ->
   applied (gzip_serve dexts cs cfgs path ae s) = [GZIP].
 Proof.
@@ -743,17 +848,10 @@ Proof.
 Qed.
 
 (* ------------------------------------------------------------------------------------------ *)
-(* refutation witnesses (the model is faithful to the code, the code is not to the property) *)
+(* tables used by the examples *)
 
 Definition bare : gcfg := {| c_exts := []; c_not := []; c_min := 0 |}.
 Definition dexts_min : list bytes := [[]; bs ".txt"].
-
-Lemma q0_witness :
-  let s := [OWrite [1; 2; 3]] in
-  let ae := bs "gzip;q=0" in
-  offers_gzip ae = false /\
-  applied (gzip_serve dexts_min false [bare] (bs "/x") ae s) = [GZIP].
-Proof. vm_compute. repeat split; reflexivity. Qed.
 
 (* Content-Length of static responses: FormatInt of the number of bytes sent, or dropped *)
 Lemma static_cl_plain prio ae data sibs :
